@@ -50,7 +50,8 @@ TSubj   == Ev.op = "Subjects" /\ Subjects /\ Matches
 TTick   == /\ Ev.op = "Tick" /\ now' = Ev.to /\ Ev.to >= now
            /\ last' = [op |-> "Tick", ret |-> [r |-> "ok"]] /\ UNCHANGED store
 
-TraceNext == Step(TSet \/ TReset \/ TDelete \/ TGet \/ TIdent \/ TActive \/ TEnts \/ TStale \/ TSubj \/ TTick)
+TReopen == Ev.op = "Reopen" /\ Reopen
+TraceNext == Step(TSet \/ TReset \/ TDelete \/ TGet \/ TIdent \/ TActive \/ TEnts \/ TStale \/ TSubj \/ TTick \/ TReopen)
 TraceSpec == TraceInit /\ [][TraceNext]_tvars
 
 \* the contract invariants are evaluated in every state of every recorded execution
